@@ -1072,10 +1072,11 @@ def numeric_clause(chk, embs, rng, n_events=7):
     """lambdify(form) vs lambdify(expr.doit()) for form in {expr, expr.doit(deep=False)}, cse on/off, seeded
     inputs.  Only forms that SymPy can print for numpy are comparable (classes with a numpy printer)."""
     import numpy as np
+    from ampform.sympy._array_expressions import ArraySum
 
     nrng = np.random.default_rng(chk.seed + 5)
     out = {"comparisons": 0, "classes_compared": [], "forms_compared": {"folded": 0, "one-level": 0}, "cse_on": 0, "cse_off": 0,
-           "not_comparable_by_reason": {}, "no_evaluate": []}
+           "not_comparable_by_reason": {}, "no_evaluate": [], "compound_argument_comparisons": 0}
 
     def skip(reason):
         out["not_comparable_by_reason"][reason] = out["not_comparable_by_reason"].get(reason, 0) + 1
@@ -1086,84 +1087,90 @@ def numeric_clause(chk, embs, rng, n_events=7):
             continue
         vec = c.builder is None and any(f in FOURVEC_FIELDS for f in c.sympy_fields)
         leaf = (lambda n: ArraySymbol(n, shape=[])) if vec else sp.Symbol
-        try:
-            with warnings.catch_warnings():
-                warnings.simplefilter("ignore")
-                with time_limit(30):
-                    args = []
-                    for i in range(c.n_positions if c.builder is None else c.ar):
-                        name = c.sympy_fields[i] if c.builder is None else f"a{i}"
-                        if name in ("n_events", "shape"):
-                            args.append(sp.Symbol("nev"))
-                        elif name in FILLERS_NUM:
-                            args.append(FILLERS_NUM[name])
-                        else:
-                            args.append(leaf(f"v{i}"))
-                    obj = c.build(args, tuple("a" for _ in range(c.na)), tuple(range(len(args))))
-                    unfolded = obj.doit()
-                    forms = [("folded", obj)]
-                    try:
-                        one = obj.doit(deep=False)
-                        if one != unfolded and one != obj:
-                            forms.append(("one-level", one))
-                    except Exception:  # noqa: BLE001
-                        pass
-        except (Exception, OpTimeout) as e:  # noqa: BLE001
-            skip(f"generic instance / doit failed: {type(e).__name__}")
-            continue
-        byname = {}
-        for a_ in sp.preorder_traversal(obj):
-            if isinstance(a_, ArraySymbol):
-                byname[str(a_.name)] = a_
-        for a_ in obj.free_symbols:
-            if isinstance(a_, sp.Symbol):
-                byname.setdefault(a_.name, a_)
-        syms = [byname[k] for k in sorted(byname)]
-        inputs = []
-        for s_ in syms:
-            if isinstance(s_, ArraySymbol):
-                p3 = nrng.uniform(-1.0, 1.0, size=(n_events, 3))
-                m = nrng.uniform(0.2, 1.5, size=n_events)
-                e = np.sqrt((p3**2).sum(axis=1) + m**2)
-                inputs.append(np.concatenate([e[:, None], p3], axis=1))
-            elif str(s_) == "nev":
-                inputs.append(n_events)
-            else:
-                inputs.append(nrng.uniform(1.2, 3.7, size=n_events))
-        for cse in (False, True):
+        for compound in (False, True):
             try:
-                with warnings.catch_warnings(), np.errstate(all="ignore"):
+                with warnings.catch_warnings():
                     warnings.simplefilter("ignore")
-                    with time_limit(60):
-                        v2 = np.asarray(sp.lambdify(syms, unfolded, "numpy", cse=cse)(*inputs), dtype=complex)
+                    with time_limit(30):
+                        args = []
+                        for i in range(c.n_positions if c.builder is None else c.ar):
+                            name = c.sympy_fields[i] if c.builder is None else f"a{i}"
+                            if name in ("n_events", "shape"):
+                                args.append(sp.Symbol("nev"))
+                            elif name in FILLERS_NUM:
+                                args.append(FILLERS_NUM[name])
+                            elif compound:
+                                # an argument that prints as an unparenthesised compound (a printer that pastes it in front of an
+                                # operator without parentheses changes the value)
+                                args.append(ArraySum(leaf(f"v{i}"), leaf(f"w{i}")) if vec else leaf(f"v{i}") + 2 * leaf(f"w{i}"))
+                            else:
+                                args.append(leaf(f"v{i}"))
+                        obj = c.build(args, tuple("a" for _ in range(c.na)), tuple(range(len(args))))
+                        unfolded = obj.doit()
+                        forms = [("folded", obj)]
+                        try:
+                            one = obj.doit(deep=False)
+                            if one != unfolded and one != obj:
+                                forms.append(("one-level", one))
+                        except Exception:  # noqa: BLE001
+                            pass
             except (Exception, OpTimeout) as e:  # noqa: BLE001
-                skip(f"unfolded form not evaluable: {type(e).__name__}")
+                skip(f"generic instance / doit failed: {type(e).__name__}" + (" (compound arguments)" if compound else ""))
                 continue
-            for fname, form in forms:
+            byname = {}
+            for a_ in sp.preorder_traversal(obj):
+                if isinstance(a_, ArraySymbol):
+                    byname[str(a_.name)] = a_
+            for a_ in obj.free_symbols:
+                if isinstance(a_, sp.Symbol):
+                    byname.setdefault(a_.name, a_)
+            syms = [byname[k] for k in sorted(byname)]
+            inputs = []
+            for s_ in syms:
+                if isinstance(s_, ArraySymbol):
+                    p3 = nrng.uniform(-1.0, 1.0, size=(n_events, 3))
+                    m = nrng.uniform(0.2, 1.5, size=n_events)
+                    e = np.sqrt((p3**2).sum(axis=1) + m**2)
+                    inputs.append(np.concatenate([e[:, None], p3], axis=1))
+                elif str(s_) == "nev":
+                    inputs.append(n_events)
+                else:
+                    inputs.append(nrng.uniform(1.2, 3.7, size=n_events))
+            for cse in (False, True):
                 try:
                     with warnings.catch_warnings(), np.errstate(all="ignore"):
                         warnings.simplefilter("ignore")
                         with time_limit(60):
-                            v1 = np.asarray(sp.lambdify(syms, form, "numpy", cse=cse)(*inputs), dtype=complex)
+                            v2 = np.asarray(sp.lambdify(syms, unfolded, "numpy", cse=cse)(*inputs), dtype=complex)
                 except (Exception, OpTimeout) as e:  # noqa: BLE001
-                    skip(f"{fname} form has no numpy code: {type(e).__name__}")
+                    skip(f"unfolded form not evaluable: {type(e).__name__}")
                     continue
-                out["comparisons"] += 1
-                out["forms_compared"][fname] += 1
-                out["cse_on" if cse else "cse_off"] += 1
-                if c.name not in out["classes_compared"]:
-                    out["classes_compared"].append(c.name)
-                try:
-                    b1, b2 = np.broadcast_arrays(v1, v2)
-                    ok = bool(np.array_equal(np.isnan(b1), np.isnan(b2))) and bool(
-                        np.allclose(b1[~np.isnan(b1)], b2[~np.isnan(b2)], rtol=1e-7, atol=1e-12))
-                except ValueError:
-                    ok = False
-                if not ok:
-                    chk.violation(f"lambdify:folded-vs-unfolded-differ:{c.name}",
-                                  f"{describe(obj)} ({fname} form) with cse={cse}: generated code gives {v1.ravel()[:4]}, code from doit() gives {v2.ravel()[:4]}",
-                                  {"class": c.qualname, "cse": cse, "form": fname, "expr": sp.srepr(obj)})
-                chk.count(1)
+                for fname, form in forms:
+                    try:
+                        with warnings.catch_warnings(), np.errstate(all="ignore"):
+                            warnings.simplefilter("ignore")
+                            with time_limit(60):
+                                v1 = np.asarray(sp.lambdify(syms, form, "numpy", cse=cse)(*inputs), dtype=complex)
+                    except (Exception, OpTimeout) as e:  # noqa: BLE001
+                        skip(f"{fname} form has no numpy code: {type(e).__name__}")
+                        continue
+                    out["comparisons"] += 1
+                    out["compound_argument_comparisons"] += int(compound)
+                    out["forms_compared"][fname] += 1
+                    out["cse_on" if cse else "cse_off"] += 1
+                    if c.name not in out["classes_compared"]:
+                        out["classes_compared"].append(c.name)
+                    try:
+                        b1, b2 = np.broadcast_arrays(v1, v2)
+                        ok = bool(np.array_equal(np.isnan(b1), np.isnan(b2))) and bool(
+                            np.allclose(b1[~np.isnan(b1)], b2[~np.isnan(b2)], rtol=1e-7, atol=1e-12))
+                    except ValueError:
+                        ok = False
+                    if not ok:
+                        chk.violation(f"lambdify:folded-vs-unfolded-differ:{c.name}",
+                                      f"{describe(obj)} ({fname} form{', compound arguments' if compound else ''}) with cse={cse}: generated code gives {v1.ravel()[:4]}, code from doit() gives {v2.ravel()[:4]}",
+                                      {"class": c.qualname, "cse": cse, "form": fname, "compound": compound, "expr": sp.srepr(obj)})
+                    chk.count(1)
     return out
 
 
